@@ -304,8 +304,17 @@ func (c *Ctx) checkWriters(rule string, field *types.Var, allowed fnSet, min int
 	n := 0
 	for _, w := range ws {
 		o := funcObj(rootFn(w.Fn))
-		by[o] = append(by[o], w)
 		n++
+		// a private helper whose every caller is an allowed writer writes on their behalf
+		if o != nil && !allowed[o] {
+			if host := c.helperOf(rootFn(w.Fn), allowed, 0); host != nil {
+				by[host] = append(by[host], w)
+				c.OK(rule, fmt.Sprintf("writer-of:%s@%s", name, funcName(rootFn(w.Fn))), c.P.InstrPos(w.Instr),
+					fmt.Sprintf("%s of field %s in %s, a private helper called only from the allowed writer %s", w.Kind, name, funcName(rootFn(w.Fn)), host.Name()))
+				continue
+			}
+		}
+		by[o] = append(by[o], w)
 		c.Check(o != nil && allowed[o], rule, fmt.Sprintf("writer-of:%s@%s", name, funcName(rootFn(w.Fn))), c.P.InstrPos(w.Instr),
 			fmt.Sprintf("%s of field %s in %s; allowed writers are frozen in the rule table", w.Kind, name, funcName(rootFn(w.Fn))))
 	}
@@ -319,6 +328,13 @@ func (c *Ctx) checkCallers(rule string, target *types.Func, allowed fnSet, min i
 	cs := c.P.CallSites(target)
 	for _, s := range cs {
 		o := funcObj(rootFn(s.Fn))
+		if o != nil && !allowed[o] {
+			if host := c.helperOf(rootFn(s.Fn), allowed, 0); host != nil {
+				c.OK(rule, fmt.Sprintf("caller-of:%s@%s", target.Name(), funcName(rootFn(s.Fn))), c.P.InstrPos(s.Instr),
+					fmt.Sprintf("%s of %s in %s, a private helper called only from the allowed caller %s", s.Kind, target.FullName(), funcName(rootFn(s.Fn)), host.Name()))
+				continue
+			}
+		}
 		c.Check(o != nil && allowed[o], rule, fmt.Sprintf("caller-of:%s@%s", target.Name(), funcName(rootFn(s.Fn))), c.P.InstrPos(s.Instr),
 			fmt.Sprintf("%s of %s in %s; allowed callers are frozen in the rule table", s.Kind, target.FullName(), funcName(rootFn(s.Fn))))
 	}
@@ -373,4 +389,72 @@ func (c *Ctx) returnsAll(rule, construct string, fn *ssa.Function, idx int, pat 
 		pos = badPos
 	}
 	return c.Check(ok, rule, construct, pos, why)
+}
+
+// helperOf: fn is an unexported function that is only ever called (statically, never used as a value or through an
+// interface) from functions of the allowed set — or from other such helpers. Returns one allowed host, or nil.
+func (c *Ctx) helperOf(fn *ssa.Function, allowed fnSet, depth int) *types.Func {
+	obj := funcObj(fn)
+	if obj == nil || obj.Exported() || fn.Parent() != nil || depth > 2 {
+		return nil
+	}
+	sites := c.P.CallSites(obj)
+	if len(sites) == 0 {
+		return nil
+	}
+	var host *types.Func
+	for _, cs := range sites {
+		if cs.Kind == "value" || cs.Kind == "invoke" {
+			return nil
+		}
+		caller := rootFn(cs.Fn)
+		co := funcObj(caller)
+		if co == nil {
+			return nil
+		}
+		if allowed[co] {
+			host = co
+			continue
+		}
+		if caller == fn {
+			continue
+		}
+		h := c.helperOf(caller, allowed, depth+1)
+		if h == nil {
+			return nil
+		}
+		host = h
+	}
+	return host
+}
+
+// region: fn plus the private helpers that are called only from inside the region (extract-method neighbours).
+func (c *Ctx) region(fn *ssa.Function) []*ssa.Function {
+	obj := funcObj(fn)
+	out := []*ssa.Function{fn}
+	if obj == nil {
+		return out
+	}
+	allowed := fnSet{obj: true}
+	seen := map[*ssa.Function]bool{fn: true}
+	for i := 0; i < len(out); i++ {
+		eachInstr(out[i], func(in ssa.Instruction) {
+			ci, ok := in.(ssa.CallInstruction)
+			if !ok {
+				return
+			}
+			sc := ci.Common().StaticCallee()
+			if sc == nil || seen[sc] || sc.Blocks == nil || funcPkgPath(sc) != funcPkgPath(fn) {
+				return
+			}
+			if c.helperOf(sc, allowed, 0) != nil {
+				seen[sc] = true
+				out = append(out, sc)
+				if o := funcObj(sc); o != nil {
+					allowed[o] = true
+				}
+			}
+		})
+	}
+	return out
 }
